@@ -72,6 +72,7 @@ SLICES = {
         ("/*SLICE:height*/", "src/runtime_scope.rs", "expr", r"height:\s*(.*?),\n", "from_template"),
         ("/*SLICE:check*/", "src/runtime_scope.rs", "stmt", r"if rt\s*\.limits\s*\.depth_limit", "from_template"),
     ],
+    "find_run": [("/*SLICE*/", "src/util/trysort.rs", "stmt", r"if start > 0 \{", "try_sort")],
     "trampoline": [
         ("/*SLICE*/", "src/runtime_scope.rs", "block", r"XFunction::UserFunction\s*\{\s*template,\s*output\s*\}\s*=>\s*\{", "eval_func_with_values"),
     ],
